@@ -15,6 +15,8 @@ import (
 	"github.com/alpacahq/marketstore/v4/utils/io"
 	"github.com/alpacahq/marketstore/v4/utils/log"
 	"github.com/alpacahq/marketstore/v4/verifhooks"
+	"go.uber.org/zap"
+	"go.uber.org/zap/zapcore"
 )
 
 func init() {
@@ -104,16 +106,23 @@ func NewInst(root string, o InstOpts) *Inst {
 		go in.WAL.SyncWAL(o.WALRefresh, o.PrimaryRefresh, ri)
 		in.WAL.IncrementWaitGroup()
 		in.bg = true
-		// SyncWAL sets haveWALWriter at its first statement; wait until the loop runs
-		time.Sleep(2 * time.Millisecond)
+		waitWALWriter()
 	} else if cfg.BackgroundSync {
 		in.bg = true
-		time.Sleep(2 * time.Millisecond)
+		waitWALWriter()
 	}
 	in.W = c.GetWriter()
 	in.QS = c.GetHTTPService()
 	in.DS = frontend.NewDataService(c.GetAbsRootDir(), in.Cat, c.GetAggRunner(), in.W, in.QS)
 	return in
+}
+
+// waitWALWriter: SyncWAL announces itself at its first statement; a write issued before that
+// would flush inline, concurrently with the loop (the server proper starts listening later).
+func waitWALWriter() {
+	for i := 0; i < 5000 && !executor.VerifHaveWALWriter(); i++ {
+		time.Sleep(time.Millisecond)
+	}
 }
 
 // Close shuts the instance down gracefully (final flush + checkpoint when a
@@ -302,3 +311,30 @@ func (in *Inst) QueryAPI(req frontend.QueryRequest) (map[string]*Rows, error) {
 	}
 	return out, nil
 }
+
+// FatalAsPanic makes the server's log.Fatal (zap global logger) panic instead of
+// calling os.Exit, so that a check can attribute the termination to the
+// goroutine and operation that caused it (concurrent checks). zap writes the
+// entry to its cores before it exits; the core installed here panics on a
+// fatal entry with "log.Fatal: <text>".
+func FatalAsPanic() {
+	zap.ReplaceGlobals(zap.New(fatalCore{}))
+}
+
+type fatalCore struct{}
+
+func (fatalCore) Enabled(l zapcore.Level) bool        { return l >= zapcore.FatalLevel }
+func (c fatalCore) With([]zapcore.Field) zapcore.Core { return c }
+func (c fatalCore) Check(e zapcore.Entry, ce *zapcore.CheckedEntry) *zapcore.CheckedEntry {
+	if c.Enabled(e.Level) {
+		return ce.AddCore(e, c)
+	}
+	return ce
+}
+func (fatalCore) Write(e zapcore.Entry, _ []zapcore.Field) error {
+	if e.Level >= zapcore.FatalLevel {
+		panic("log.Fatal: " + e.Message)
+	}
+	return nil
+}
+func (fatalCore) Sync() error { return nil }
